@@ -175,6 +175,9 @@ example : (Standardiser.read exP (incrN exP (write exP exSt 5) 1 4)).2 = fin 9 :
 /-- `_clamp` as written in the source is the model's `clamp` (on which every theorem above rests) -/
 theorem gen_clamp_eq (low v high : ERat) : Gen.clamp low v high = clamp low v high := rfl
 
+/-- `_floor(n, base)` (`n // base * base`) as written in the source is the model's `floorTo` -/
+theorem gen_floor_eq (n g : Rat) : Gen.floor n g = floorTo n g := rfl
+
 /-! ### every supply, the infinite ones included -/
 
 /-- at a finite supply the extended definitions are the ordinary ones -/
